@@ -334,7 +334,7 @@ func newResponseType(p *kit.Prog, recv types.Type) types.Type {
 	var t types.Type
 	kit.Instrs(fn, func(in ssa.Instruction) {
 		if r, ok := in.(*ssa.Return); ok && len(r.Results) == 1 {
-			v := kit.Strip(r.Results[0])
+			v := kit.Strip(kit.Res(r, 0))
 			if a, ok := v.(*ssa.Alloc); ok {
 				t = a.Type()
 			}
@@ -599,7 +599,7 @@ func multiIndexValidated(c *kit.Ctx, eng *bounds.Engine) (bool, string) {
 					return true
 				}
 				if r, ok := in.(*ssa.Return); ok {
-					return kit.IsNilConst(kit.Root(r.Results[len(r.Results)-1]))
+					return kit.IsNilConst(kit.Root(kit.Res(r, len(r.Results)-1)))
 				}
 				return false
 			},
